@@ -711,6 +711,13 @@ func Run(o *core.Options) int {
 			return code // a schedule recorded by the concurrent-writers sub-harness
 		}
 		defer wl.Cleanup()
+		var bulk struct {
+			N *int `json:"first_write"`
+		}
+		if err := core.LoadReplay(o.Replay, &bulk); err == nil && bulk.N != nil {
+			bulkWrites(r) // a bulk-write case: the whole (small) bulk enumeration is re-run
+			return r.Finish()
+		}
 		var c Case
 		if err := core.LoadReplay(o.Replay, &c); err != nil {
 			fmt.Fprintln(os.Stderr, "replay:", err)
@@ -758,6 +765,7 @@ func Run(o *core.Options) int {
 	r.Transitions = int64(len(p.edges))
 	r.Traces = traces
 	fmt.Printf("C15 %s: depth %d, states %d %v, transitions %d, executed on implementations %d\n", o.Tier, depth, p.states, p.perLvl, len(p.edges), traces)
+	bulkWrites(r)
 	e1.MergeSub(o, r, "memw", "C15", "concurrent_writers", memwWhat)
 	return r.Finish()
 }
